@@ -765,6 +765,7 @@ func mentionsNil(body *ast.BlockStmt, v string) bool {
 type target struct {
 	file, recv, fn, lean string
 	boxBranch            bool // translate only the `if bp, ok := p.(*Bounds); ok {…}` branch
+	points               bool // a Points() closure (closures.go)
 }
 
 func trFunc(fd *ast.FuncDecl, tg target) string {
@@ -877,34 +878,41 @@ func recvName(fd *ast.FuncDecl) string {
 }
 
 var targets = []target{
-	{"point.go", "Point", "Equals", "pointEquals", false},
-	{"bounds.go", "", "NewBounds", "newBounds", false},
-	{"bounds.go", "", "NewBoundsPoint", "newBoundsPoint", false},
-	{"bounds.go", "*Bounds", "Copy", "copy", false},
-	{"bounds.go", "*Bounds", "Empty", "empty", false},
-	{"bounds.go", "*Bounds", "extendPoint", "extendPoint", false},
-	{"bounds.go", "*Bounds", "extendPoints", "extendPoints", false},
-	{"bounds.go", "*Bounds", "extendPointss", "extendPointss", false},
-	{"bounds.go", "*Bounds", "Extend", "extend", false},
-	{"bounds.go", "*Bounds", "Overlaps", "overlaps", false},
-	{"bounds.go", "*Bounds", "Within", "withinBox", true},
-	{"bounds.go", "*Bounds", "Intersection", "intersectionBox", true},
-	{"bounds.go", "*Bounds", "Area", "area", false},
-	{"bounds.go", "*Bounds", "Centroid", "centroid", false},
+	{"point.go", "Point", "Equals", "pointEquals", false, false},
+	{"bounds.go", "", "NewBounds", "newBounds", false, false},
+	{"bounds.go", "", "NewBoundsPoint", "newBoundsPoint", false, false},
+	{"bounds.go", "*Bounds", "Copy", "copy", false, false},
+	{"bounds.go", "*Bounds", "Empty", "empty", false, false},
+	{"bounds.go", "*Bounds", "extendPoint", "extendPoint", false, false},
+	{"bounds.go", "*Bounds", "extendPoints", "extendPoints", false, false},
+	{"bounds.go", "*Bounds", "extendPointss", "extendPointss", false, false},
+	{"bounds.go", "*Bounds", "Extend", "extend", false, false},
+	{"bounds.go", "*Bounds", "Overlaps", "overlaps", false, false},
+	{"bounds.go", "*Bounds", "Within", "withinBox", true, false},
+	{"bounds.go", "*Bounds", "Intersection", "intersectionBox", true, false},
+	{"bounds.go", "*Bounds", "Area", "area", false, false},
+	{"bounds.go", "*Bounds", "Centroid", "centroid", false, false},
 	// Bounds() and Len() of the geometry types (a collection dispatches on interface values: not in the subset)
-	{"point.go", "Point", "Bounds", "pointBounds", false},
-	{"point.go", "Point", "Len", "pointLen", false},
-	{"multipoint.go", "MultiPoint", "Bounds", "multiPointBounds", false},
-	{"multipoint.go", "MultiPoint", "Len", "multiPointLen", false},
-	{"linestring.go", "LineString", "Bounds", "lineStringBounds", false},
-	{"linestring.go", "LineString", "Len", "lineStringLen", false},
-	{"multilinestring.go", "MultiLineString", "Bounds", "multiLineStringBounds", false},
-	{"multilinestring.go", "MultiLineString", "Len", "multiLineStringLen", false},
-	{"polygon.go", "Polygon", "Bounds", "polygonBounds", false},
-	{"polygon.go", "Polygon", "Len", "polygonLen", false},
-	{"multipolygon.go", "MultiPolygon", "Bounds", "multiPolygonBounds", false},
-	{"multipolygon.go", "MultiPolygon", "Len", "multiPolygonLen", false},
-	{"bounds.go", "*Bounds", "Len", "boundsLen", false},
+	{"point.go", "Point", "Bounds", "pointBounds", false, false},
+	{"point.go", "Point", "Len", "pointLen", false, false},
+	{"multipoint.go", "MultiPoint", "Bounds", "multiPointBounds", false, false},
+	{"multipoint.go", "MultiPoint", "Len", "multiPointLen", false, false},
+	{"linestring.go", "LineString", "Bounds", "lineStringBounds", false, false},
+	{"linestring.go", "LineString", "Len", "lineStringLen", false, false},
+	{"multilinestring.go", "MultiLineString", "Bounds", "multiLineStringBounds", false, false},
+	{"multilinestring.go", "MultiLineString", "Len", "multiLineStringLen", false, false},
+	{"polygon.go", "Polygon", "Bounds", "polygonBounds", false, false},
+	{"polygon.go", "Polygon", "Len", "polygonLen", false, false},
+	{"multipolygon.go", "MultiPolygon", "Bounds", "multiPolygonBounds", false, false},
+	{"multipolygon.go", "MultiPolygon", "Len", "multiPolygonLen", false, false},
+	{"bounds.go", "*Bounds", "Len", "boundsLen", false, false},
+	// Points() closures (closures.go); GeometryCollection and *Bounds are outside the subset, see there
+	{file: "point.go", recv: "Point", fn: "Points", lean: "point", points: true},
+	{file: "multipoint.go", recv: "MultiPoint", fn: "Points", lean: "multiPoint", points: true},
+	{file: "linestring.go", recv: "LineString", fn: "Points", lean: "lineString", points: true},
+	{file: "multilinestring.go", recv: "MultiLineString", fn: "Points", lean: "multiLineString", points: true},
+	{file: "polygon.go", recv: "Polygon", fn: "Points", lean: "polygon", points: true},
+	{file: "multipolygon.go", recv: "MultiPolygon", fn: "Points", lean: "multiPolygon", points: true},
 }
 
 const genHeader = `import GeomV.C04.Model
@@ -963,7 +971,11 @@ func extract(repo string) (string, []string) {
 			if fd == nil {
 				xfail("function not found")
 			}
-			out = trFunc(fd, tg)
+			if tg.points {
+				out = trPoints(fd, tg.lean)
+			} else {
+				out = trFunc(fd, tg)
+			}
 		}()
 		name := tg.fn
 		if tg.recv != "" {
